@@ -21,7 +21,11 @@ CFG = {
     "shrink": [],
     "rule": "quick: every gate value at every gate position (5 executable names x 13 buildpack.toml states x 0..4 arguments x 8 variable "
             "sets, later dimensions at a representative value, twice: passing and failing buildpack), context inputs (cwd x platform dir x "
-            "buildpack plan x 8 variable sets x 3 names), copy instead of symlink; with all gates open the full product detect behaviour "
+            "buildpack plan x 8 variable sets x 3 names), executable layout (symlink to a neutrally named file / separate copy / one neutral real "
+            "file with detect, build and the wrong name linked to it / real file bin/build with the others linked to it = packaged layout / "
+            "real file bin/detect) x invocation (absolute, relative, ../bin/.. path, bare name through $PATH, exec of the real file with "
+            "argv[0] set) x 4 names (detect, build, other, release; wrong names get the argument list of the phase their count fits); "
+            "with all gates open the full product detect behaviour "
             "(6: pass, pass+plan normal/empty/other-shape, fail, error) x pre-existing plan (absent/file/dir) x optional variable x platform x "
             "descriptor validity, build behaviour (launch and store each absent / normal / EMPTY document / other shape, build and launch SBOM "
             "sets with normal, empty and binary data: 64 results + error + layer error) x launch.toml (3) x store.toml (4) x SBOM files (2x2; "
